@@ -26,7 +26,7 @@ var verifDetermProgs = []verifDetermProg{
 		map[string]string{"m1": "let v = 10;\npub fn f() -> int { return v + 1; }\npub fn g() -> int { return v + 2; }\nfn k() -> int { return 0; }\n", "m2": "let v = 20;\npub fn h() -> int { return v + 3; }\nfn k() -> int { return 0; }\n"}},
 	{"locals", "fn a(p: int, q: int) -> int { let r = p + q; let s = r * 2; return s - p; }\nfn b(p: int) -> int { let t = a(p, 1); return t + a(2, p); }\nfn main() {\n  let l = [b(1), b(2), b(3)];\n  for x in l { println(x); }\n}\n", nil},
 	{"singletons-impl", "import templ FooFeature from templates;\nimport trigger minute from triggers;\n$Device = { b: int, name: str, lit: bool };\n$Other = { c: float, d: int };\nimpl FooFeature with { light } for $Device {\n  fn dim(self: $Device, percent: int) -> bool { self.b = percent; true }\n}\nimpl FooFeature with { temperature } for $Other {\n  fn set_temp(self: $Other, celsius: float) { self.c = celsius; }\n}\nevent fn cb(elapsed: int) { println(elapsed); }\nfn main() {\n  println(dim(3), $Device, $Other);\n  set_temp(1.5);\n  trigger cb at minute(2);\n  println($Other.c, $Device.b);\n}\n", nil},
-	{"several-errors", "import nothere from m1;\nfn a(p: int, p: int) {}\nfn a() {}\nlet g = 1;\nlet g = 2;\ntype T = int;\ntype T = str;\nfn main() {\n  let x: str = 1;\n  let y: int = \"s\";\n  undefined1();\n  undefined2();\n  break;\n}\n",
+	{"several-errors", "import templ FooFeature from templates;\n$Dev = { b: int };\nimpl FooFeature with { light, temperature } for $Dev {\n  fn dim(self: $Dev, percent: int) -> bool { true }\n  fn set_temp(self: $Dev, celsius: float) { }\n}\nimport nothere from m1;\nfn a(p: int, p: int) {}\nfn a() {}\nlet g = 1;\nlet g = 2;\ntype T = int;\ntype T = str;\nfn main() {\n  let x: str = 1;\n  let y: int = \"s\";\n  undefined1();\n  undefined2();\n  break;\n}\n",
 		map[string]string{"m1": "let v = 10;\npub fn f() -> int { return v; }\n"}},
 	{"module-chain", "import fa from a;\nimport fb from b;\nfn main() {\n  println(fa(), fb());\n}\n",
 		map[string]string{"a": "import inc from c;\npub fn fa() -> int { return inc(); }\n", "b": "import inc from c;\npub fn fb() -> int { return inc() * 10; }\npub fn fa() -> int { return 0; }\n", "c": "pub let cnt = 0;\npub fn inc() -> int { cnt += 1; return cnt; }\n"}},
@@ -35,6 +35,7 @@ var verifDetermProgs = []verifDetermProg{
 	{"loops-in-several-functions", "fn total(xs: [int]) -> int {\n  let s = 0;\n  for i in xs { s += i; }\n  s\n}\nfn report(limit: int) {\n  let banner = \"== report ==\";\n  let extra = limit * 2;\n  for i in 0..limit { extra += i; }\n  println(banner, \"limit\", limit, extra);\n}\nfn third() -> int {\n  let a = 1;\n  let b = 2;\n  let c = 3;\n  for i in 0..2 { c += i; }\n  for j in [a, b] { c += j; }\n  a + b + c\n}\nfn main() {\n  println(total([1, 2, 3]));\n  report(3);\n  println(third());\n  for i in 0..2 { println(i); }\n}\n", nil},
 	{"function-values-in-modules", "import show from m1;\nimport show2 from m2;\nfn named(a: int) -> int { a }\nfn main() {\n  let f = fn() -> int { 1 };\n  println(f, named);\n  show();\n  show2();\n  println(f());\n}\n",
 		map[string]string{"m1": "pub fn show() {\n  let g = fn() -> int { 2 };\n  println(g, g());\n}\n", "m2": "pub fn show2() {\n  let h = fn() -> int { 3 };\n  let k = fn() -> int { 4 };\n  println(h, k, h() + k());\n}\n"}},
+	{"cast-error-message", "fn main() {\n  let o = new { inner: new { a: 1, b: 2, c: 3 } } as { ? };\n  try {\n    let t = o.get(\"inner\").unwrap() as { a: str, b: str, c: str };\n    println(t);\n  } catch e {\n    println(e.message);\n  }\n  try {\n    let u = o.get(\"inner\").unwrap() as { a: int, b: bool, c: float, d: int };\n    println(u);\n  } catch e {\n    println(e.message);\n  }\n}\n", nil},
 	{"list-of-objects", "fn main() {\n  let l = [new { k: 1, v: \"a\" }, new { k: 2, v: \"b\" }];\n  for o in l { println(o.k, o.v); }\n  println(l);\n}\n", nil},
 }
 
